@@ -66,8 +66,9 @@ def execute(hist, path):
                         st = "failed"
                 elif op == "delete":
                     ids = [dec(i) for i in step["ids"]]
-                    form = len(obs) % 3                          # an id, a Feature object, or a list of Features
-                    arg = ids[0] if (form == 0 and len(ids) == 1) else (db[ids[0]] if (form == 1 and len(ids) == 1) else [db[i] for i in ids])
+                    form = (len(obs) + len(hist)) % 5            # an id, a Feature object, a list of Features, a one-shot iterator of ids, a generator of Features
+                    arg = (ids[0] if (form == 0 and len(ids) == 1) else db[ids[0]] if (form == 1 and len(ids) == 1) else iter(list(ids)) if form == 3
+                           else (db[i] for i in list(ids)) if form == 4 else [db[i] for i in ids])
                     db.delete(arg, make_backup=step["backup"])
                 elif op == "addrel":
                     pa, ch = dec(step["p"]), dec(step["c"])
